@@ -118,6 +118,15 @@ def run(unit, functions, repo, scratch, timeout=1800, deep=False):
       for feat in variants:
         vcmd = cmd + (["--features", ",".join("slotted-egraphs/" + x for x in feat.split(","))] if feat else [])
         p = subprocess.run(vcmd, cwd=runner, env=env, stdout=subprocess.PIPE, stderr=subprocess.PIPE, text=True, timeout=timeout)
+        if p.returncode != 0 and "verif_api_only" in open(src).read():
+            # An edit changed the signature of a (crate-private or parameter-specific) function that one section of the harness calls
+            # directly.  The sections marked `#[cfg(not(verif_api_only))]` are compiled out and the rest - the part of the harness that
+            # drives the code under test through the public API only - is built and run; the functions of the dropped sections stay undecided.
+            first_err = p.stderr[-1500:]
+            env = dict(env, RUSTFLAGS=env.get("RUSTFLAGS", "") + " --cfg verif_api_only")
+            p = subprocess.run(vcmd, cwd=runner, env=env, stdout=subprocess.PIPE, stderr=subprocess.PIPE, text=True, timeout=timeout)
+            if p.returncode == 0:
+                note_parts.append("harness built in API-only mode (sections calling functions whose signature changed are compiled out): " + first_err[-300:])
         if p.returncode != 0:
             return dict(ran=False, failures=[], note="bounded harness does not build against this tree: " + p.stderr[-1500:], cmd=" ".join(vcmd), wall_s=round(time.time() - t0, 1))
         exe = os.path.join(root, "target", "release" if deep else "debug", "verif-bounded-runner")
